@@ -86,6 +86,10 @@ def shard_country(arg):
         t = g.iban(cc, rng, v)
         if t not in bases:
             bases.append(t)
+    t = g.self_similar_iban(cc, rng)       # the BBAN repeats the IBAN's own first four characters
+    if t:
+        bases.append(t)
+        rec.classes["base-self-similar"] += 1
     for bi, base in enumerate(bases):
         if check_text(rec, base, "base", full=True) is not True:
             raise HarnessError(f"oracle rejects its own construction {base}")
